@@ -163,6 +163,10 @@ def opaque_result(ex, name, s: St, ty=ANY, decl=None):
         yield s_r, Raised(cls, exc, {"exact": False, "by": name})
     rty = decl.get("returns", ty)
     v = Val(smt.fresh_v("ret"), rty)
+    # whatever an uncontracted callee returns exists when it returns: objects this function allocates LATER differ from it
+    ev = smt.tick(v.t.decl().name())
+    smt.EXISTING.add(v.t.decl().name())
+    s.assume(smt.Birth(v.t) <= ev)
     s.assume(*type_facts(v, s))
     s.env["_ret_" + "".join(c if c.isalnum() else "_" for c in name).strip("_")] = v  # ghost: result of the opaque call
     if rty == BOOL:
